@@ -3,11 +3,12 @@ import json
 import os
 
 import common
-from . import gradual, scoregen
+from . import gradual, scoregen, decoder
 
 REGISTRY = {}
 REGISTRY.update(gradual.REGISTRY)
 REGISTRY.update(scoregen.REGISTRY)
+REGISTRY.update(decoder.REGISTRY)
 
 
 def setup():
@@ -31,7 +32,7 @@ def replay(path):
     obj = json.load(open(path))
     prop = obj["property"]
     kind = obj["replay"].get("kind")
-    for mod in (gradual, scoregen):
+    for mod in (gradual, scoregen, decoder):
         if kind in mod.REPLAY_KINDS:
             return mod.replay(prop, obj)
     common.log("no replay handler for kind %r" % kind)
